@@ -284,7 +284,12 @@ func c18Estimate(c *fw.Ctx, _ int) {
 		if pv, st := fw.Guard(func() {
 			e := rtp.NewAbsSendTimeExtension(send)
 			ts = e.Timestamp
-			// through the wire as well: only 24 bits travel
+			if k%3 == 0 {
+				// the sender's own object, as NewAbsSendTimeExtension built it (it may hold more than the 24 bits that travel)
+				est = e.Estimate(recv)
+				return
+			}
+			// through the wire: only 24 bits travel
 			b, _ := e.Marshal()
 			var d rtp.AbsSendTimeExtension
 			_ = d.Unmarshal(b)
